@@ -71,6 +71,27 @@ static void check_result_against_reference(H<T>& h, R const& result, std::size_t
     }
 }
 
+// one 1-d distribution with 2 bins on [0,1); the stub hands (x = 0.25, v) to the projector: bin 0 holds sum v*w over the finite products
+template <typename T, typename R>
+static void check_distribution_bins(H<T>& h, R const& result, std::vector<sym::call_record<T>> const& calls, std::vector<T> const& weights)
+{
+    using sym::isfinite;
+    using std::isfinite;
+    if (result.distributions().size() != 1 || result.distributions()[0].results().size() != 2) return;
+    T sum = T(), sumsq = T();
+    for (std::size_t k = 0; k != calls.size() && k != weights.size(); ++k)
+    {
+        if (!calls[k].has_dist) continue;
+        T const t = calls[k].dist_v * weights[k];
+        if (isfinite(t)) { sum += t; sumsq += t * t; }
+    }
+    auto const& b0 = result.distributions()[0].results()[0];
+    auto const& b1 = result.distributions()[0].results()[1];
+    h.check("C06,C11|distribution.bins_stay_finite", h.finite(b0.sum()) && h.finite(b0.sum_of_squares()) && h.finite(b1.sum()) && h.finite(b1.sum_of_squares()));
+    h.check("C06,C11|distribution.bin_holds_the_finite_weighted_values_only",
+        h.eq(b0.sum() * T(0.5), sum) && h.eq(b0.sum_of_squares() * T(0.25), sumsq) && h.eq(b1.sum(), T(0.0)));
+}
+
 template <typename T>
 static std::vector<sym::dec> dummy();
 
@@ -205,6 +226,7 @@ static void ob_multi_channel(H<T>& h)
     f.h = &h; f.log = &log; f.tab = &tab; f.f_kinds = h.get("fk", 2);
     f.may_ask_weight = h.get("ask", 0) != 0;
     f.dist_kinds = h.get("dist", 0);
+    f.dist_x_symbolic = h.get("dx", 1) != 0;
     f.projector_optional = h.get("popt", 0) != 0;
     sym::stub_channel_map<T> m;
     m.h = &h; m.log = &log; m.tab = &tab; m.coord_calls = &cc; m.dens_calls = &dc;
@@ -240,6 +262,7 @@ static void ob_multi_channel(H<T>& h)
 
     // protocol: per call  map_coordinates, integrand, [integrand_got_weight], [map_densities]
     std::size_t e = 0, di = 0;
+    std::vector<T> call_weights;
     std::vector<ref_call<T>> ref;
     std::vector<T> adj(C, T(0.0));
     bool protocol = true;
@@ -322,6 +345,7 @@ static void ob_multi_channel(H<T>& h)
                     h.same(c.asked_weight_value, wgt));
             ref_call<T> rc = classify(h, c.f, c.f_kind, wgt);
             ref.push_back(rc);
+            call_weights.push_back(wgt);
             if (rc.finite)
                 for (std::size_t j = 0; j != C; ++j)
                     if (!wz[j]) adj[j] += md.p[j] * (rc.fw * rc.fw) * wgt;
@@ -329,10 +353,12 @@ static void ob_multi_channel(H<T>& h)
         else
         {
             ref.push_back(classify(h, c.f, c.f_kind, T(1.0)));
+            call_weights.push_back(T(1.0));
         }
     }
     h.check("C17|multi_channel.call_protocol_order", h.truth(protocol && e == log.events.size()));
     check_result_against_reference(h, result, N, ref, log.calls.size());
+    if (f.dist_kinds > 0 && !f.dist_x_symbolic) check_distribution_bins<T>(h, result, log.calls, call_weights);
 
     auto adj_ok = h.truth(result.adjustment_data().size() == C);
     bool adj_fin = true;
